@@ -123,6 +123,10 @@ def run(ck: core.Check):
         w = writes.generate()
         ck.cov["generated_write_sites"] = len(w["sites"])
         ck.cov["generated_inline_events"] = w["inline_events"]
+        ck.cov["generated_mutate_attr_sites"] = sum(1 for x in w["sites"] if x["kind"] == "mutate-attr")
+        ck.cov["generated_module_level_containers"] = len(w.get("module_mutables", []))
+        ck.cov["generated_decorators"] = sorted({x[2] for x in w.get("decorators", [])})
+        ck.cov["generated_dict_access_sites"] = len(w.get("dict_access", []))
     except Exception as e:  # noqa: BLE001
         ck.broken("translator", "translator/writes.py could not read src/spox", f"{type(e).__name__}: {e}")
     ck.lean(["SpoxModel.Props.C12"], audit="SpoxModel.Audit.C12")
